@@ -149,6 +149,8 @@ func (s *Solver) CheckSatCmd(cmd string, timeout time.Duration) string {
 	pre := ""
 	if !strings.HasPrefix(s.name, "cvc5") {
 		pre = fmt.Sprintf("(set-option :timeout %d)\n", timeout.Milliseconds())
+	} else {
+		pre = fmt.Sprintf("(set-option :tlimit-per %d)\n", timeout.Milliseconds())
 	}
 	lines, err := s.roundTrip(pre+cmd, timeout+10*time.Second)
 	if err != nil {
